@@ -26,6 +26,7 @@ from icalendar.prop import (
     vDDDTypes,
     vDuration,
     vText,
+    vCategory,
     vUTCOffset,
     vDatetime,
 )
@@ -451,6 +452,9 @@ class Component(CaselessDict):
             # we are adding properties to the current top of the stack
             else:
                 factory = types_factory.for_property(name)
+                if factory in (vText, vCategory):
+                    # TEXT undoes its own escaping: hand it the value as written
+                    vals = line.raw_value()
                 component = stack[-1] if stack else None
                 if not component:
                     # only accept X-COMMENT at the end of the .ics file
